@@ -98,7 +98,14 @@ def check_mesh(ctx, p, v, e, c, ne, replace_short, label):
         ctx.count("excluded:D21-chained-contractions")
         return None
     try:
-        v1, e1, c1, _ = call(fve.generate_mesh, v, e, c, ne=ne, replace_short_edges=replace_short)
+        # the documented default (replace_short_edges=True) is left out of the call in half of those cases
+        kw_rs = {} if (replace_short and p.get("omit_default")) else {"replace_short_edges": replace_short}
+        if ne == 4 and p.get("omit_default"):
+            kw_rs = dict(kw_rs)
+            kw_ne = {}
+        else:
+            kw_ne = {"ne": ne}
+        v1, e1, c1, _ = call(fve.generate_mesh, v, e, c, **kw_ne, **kw_rs)
     except ForsysCrash as cr:
         ctx.violation(f"crash:{cr.kind}@{cr.where}", p, observed=str(cr), expected="a resampled mesh", kind=label)
         return None
@@ -201,7 +208,7 @@ def check_mesh(ctx, p, v, e, c, ne, replace_short, label):
         ctx.count("idempotence-not-asserted:D22-parallel-edges")
         return {"shortened": shortened, "unchanged": unchanged, "contracted": len(contr)}
     try:
-        v2, e2, c2, _ = call(fve.generate_mesh, v1, e1, c1, ne=ne, replace_short_edges=replace_short)
+        v2, e2, c2, _ = call(fve.generate_mesh, v1, e1, c1, **kw_ne, **kw_rs)
     except ForsysCrash as cr:
         ctx.violation(f"crash-second-pass:{cr.kind}@{cr.where}", p, observed=str(cr), expected="unchanged mesh", kind=label)
         return None
@@ -228,6 +235,7 @@ def params(draw, tier):
                       "seed": draw(st.integers(0, 2 ** 32 - 1))}
     p["ne"] = draw(st.integers(1, 12))
     p["replace_short"] = draw(st.booleans())
+    p["omit_default"] = draw(st.booleans())
     # a two-point interface on the tissue border whose two ends are the first and last entry of its cell's stored
     # list (the interface "closes" the list): the contraction then has to wrap around
     p["close_on_short"] = draw(st.one_of(st.none(), st.none(), st.integers(0, 10 ** 6)))
